@@ -26,6 +26,9 @@ type c15Case struct {
 	Trim    bool                `json:"trim"`
 	LStrip  bool                `json:"lstrip"`
 	Variant int                 `json:"variant"`
+	// PerTemplate: the options are set on the compiled root template (tpl.Options) instead of on
+	// the set; the hand-stripped reference is compiled in the SAME set and keeps the defaults
+	PerTemplate bool `json:"per_template,omitempty"`
 }
 
 const c15WS = " \t\r\n"
@@ -155,6 +158,9 @@ func checkC15(c any, r *Rec) error {
 		survived += sv
 	}
 	ctx := c15Context(cs.Variant)
+	if cs.PerTemplate {
+		return c15PerTemplate(cs, r, removed, survived)
+	}
 	got, err1 := c15Render(marked, cs.Trim, cs.LStrip, ctx)
 	want, err2 := c15Render(plain, false, false, c15Context(cs.Variant))
 	if err2 != nil {
@@ -293,7 +299,7 @@ var _ = register(&propSpec{
 			g.seq(3, &root)
 		}
 		g.files["/root.tpl"] = root
-		return &c15Case{Files: g.files, Trim: drawBool(t, "trim"), LStrip: drawBool(t, "lstrip"), Variant: drawInt(t, 0, 11, "variant")}
+		return &c15Case{Files: g.files, Trim: drawBool(t, "trim"), LStrip: drawBool(t, "lstrip"), Variant: drawInt(t, 0, 11, "variant"), PerTemplate: drawInt(t, 0, 3, "pertemplate") == 0}
 	},
 	New:   func() any { return &c15Case{} },
 	Check: checkC15,
@@ -426,3 +432,54 @@ var _ = register(&propSpec{
 })
 
 func TestC15Spaceless(t *testing.T) { runProp(t, "C15.spaceless") }
+
+// c15PerTemplate: options set per template; other templates of the same set are not affected.
+func c15PerTemplate(cs *c15Case, r *Rec, removed, survived int) error {
+	files := map[string]string{}
+	rm := 0
+	for name, toks := range cs.Files {
+		files["/m"+name] = strings.ReplaceAll(c15Marked(toks), `"/`, `"/m/`)
+		// only the root template carries the options; everything it pulls in keeps the set's defaults
+		t, l := false, false
+		if name == "/root.tpl" {
+			t, l = cs.Trim, cs.LStrip
+		}
+		p, n, _ := c15Strip(toks, t, l)
+		rm += n
+		files["/p"+name] = strings.ReplaceAll(p, `"/`, `"/p/`)
+	}
+	set := pongo2.NewSet("c15pt", newMemLoader(files))
+	marked, err := set.FromFile("/m/root.tpl")
+	if err != nil {
+		return skipf("marked document does not compile: %v", err)
+	}
+	plain, err := set.FromFile("/p/root.tpl")
+	if err != nil {
+		return skipf("hand-stripped document does not compile: %v", err)
+	}
+	marked.Options.TrimBlocks, marked.Options.LStripBlocks = cs.Trim, cs.LStrip
+	// the reference first (and again afterwards): it must not be touched by the other template's options
+	want, err2 := plain.Execute(c15Context(cs.Variant))
+	if err2 != nil {
+		return skipf("hand-stripped variant does not render: %v", err2)
+	}
+	got, err1 := marked.Execute(c15Context(cs.Variant))
+	if err1 != nil {
+		return fmt.Errorf("marked document fails: %v\n files=%q", err1, files)
+	}
+	again, _ := plain.Execute(c15Context(cs.Variant))
+	if again != want {
+		return fmt.Errorf("a template with default options rendered %q before and %q after another template of the same set got TrimBlocks=%v LStripBlocks=%v\n files=%q", want, again, cs.Trim, cs.LStrip, files)
+	}
+	if got != want {
+		return fmt.Errorf("per-template options TrimBlocks=%v LStripBlocks=%v\n marked renders        %q\n hand-stripped renders %q\n files=%q", cs.Trim, cs.LStrip, got, want, files)
+	}
+	if set.Options.TrimBlocks || set.Options.LStripBlocks {
+		return fmt.Errorf("setting a template's options changed the set's options")
+	}
+	r.Class("per-template-options")
+	if rm > 0 && survived > 0 {
+		r.NonTrivial(fmt.Sprintf("%v|%v|%v|pt", files, cs.Trim, cs.LStrip))
+	}
+	return nil
+}
